@@ -4,6 +4,7 @@ import (
 	"bytes"
 	"encoding/hex"
 	"fmt"
+	"github.com/mithrandie/ternary"
 	"math"
 	"strconv"
 	"strings"
@@ -105,6 +106,25 @@ var families = [][]value.Primary{
 	{value.NewString("abc"), value.NewString("ABC"), value.NewString(" abc "), value.NewString("aBc")},
 	{value.NewString("2012-02-03"), value.NewString("2012-02-03 00:00:00"), value.NewString("2012/02/03"), value.NewString("2012-02-03T00:00:00Z")},
 	{value.NewString("100"), value.NewString("1e2"), value.NewString("100.0"), value.NewInteger(100), value.NewFloat(100)},
+}
+
+// distinctLaw names the DISTINCT-aggregate law; a group that holds a ternary UNKNOWN next to a NULL has a cause of
+// its own (known finding F74: UNKNOWN shares the NULL bucket, but whether it is then counted depends on whether
+// a NULL precedes it), every other disagreement keeps the general name
+func distinctLaw(pr *hc.Proc, members string, strict bool) string {
+	if strict {
+		return "distinct_aggregate_buckets"
+	}
+	v, err := pr.Query("SELECT w FROM t WHERE id IN (" + members + ")")
+	if err != nil {
+		return "distinct_aggregate_buckets"
+	}
+	for i := 0; i < v.RecordLen(); i++ {
+		if t, ok := hc.ViewCell(v, i, 0).(*value.Ternary); ok && t.Ternary() == ternary.UNKNOWN {
+			return "distinct_aggregate_buckets:unknown_ternary_in_group"
+		}
+	}
+	return "distinct_aggregate_buckets"
 }
 
 func keyVal(g *hc.Gen, lit bool) value.Primary {
@@ -314,7 +334,13 @@ func run(seed int64, n int, dir string, _ []string) {
 				dd, err2 := pr.Query("SELECT DISTINCT w FROM t WHERE w IS NOT NULL AND id IN (" + members + ")")
 				if err1 == nil && err2 == nil {
 					if got, want := hc.StrOf(hc.ViewCell(dq, 0, 0)), strconv.Itoa(dd.RecordLen()); got != want {
-						o.Law("distinct_aggregate_buckets", map[string]interface{}{"strict": strict, "members": members, "count_distinct": got, "select_distinct_rows": want})
+						var ws []string
+						if wv, err := pr.Query("SELECT w FROM t WHERE id IN (" + members + ")"); err == nil {
+							for i := 0; i < wv.RecordLen() && i < 40; i++ {
+								ws = append(ws, hc.EncVal(hc.ViewCell(wv, i, 0)))
+							}
+						}
+						o.Law(distinctLaw(pr, members, strict), map[string]interface{}{"strict": strict, "members": members, "count_distinct": got, "select_distinct_rows": want, "w_values": ws})
 					}
 					o.Count("distinct_aggregate_checks")
 				}
@@ -333,7 +359,7 @@ func run(seed int64, n int, dir string, _ []string) {
 					if gi < 8 {
 						dd, err := pr.Query("SELECT DISTINCT w FROM t WHERE w IS NOT NULL AND id IN (" + members + ")")
 						if err == nil && strconv.Itoa(dd.RecordLen()) != cd {
-							o.Law("distinct_aggregate_buckets", map[string]interface{}{"strict": strict, "where": "GROUP BY", "members": members, "count_distinct": cd, "select_distinct_rows": dd.RecordLen()})
+							o.Law(distinctLaw(pr, members, strict), map[string]interface{}{"strict": strict, "where": "GROUP BY", "members": members, "count_distinct": cd, "select_distinct_rows": dd.RecordLen()})
 						}
 					}
 					for _, id := range strings.Split(members, ",") {
